@@ -12,7 +12,11 @@ def run(ctx, rep):
     if not eb or not cb:
         rep.error("R-C13-dir", "enumerate_files / create_project not found")
         return
-    b = eb[0]
+    # helpers of the same file are part of enumerate_files (`return files_in_directory(&path)`)
+    from vlib.inline import inlined
+    from vlib import units as _u
+    FS = ("std::fs::read_dir", "std::fs::canonicalize", "std::fs::metadata", "std::fs::symlink_metadata")
+    b = inlined(ctx.prog, eb[0], accept=lambda h: any((c.callee or "") in FS for _, c, _ in _u.calls_in_unit(ctx, h)))
     where = "%s:%d" % (b.f["file"], b.f["line"])
     rd = [c for c in b.calls() if c.callee == "std::fs::read_dir"]
     if len(rd) != 1:
@@ -153,25 +157,28 @@ def run(ctx, rep):
                       "(an empty directory) fails the whole run, although checking the list of the files of all arguments succeeds")
     # create_project: the loop over the enumerated files pushes each one
     p = cb[0]
-    pushes = [c for c in p.calls() if c.callee == "ironplcc::project::FileBackedProject::push"]
+    from vlib import units
+    pushes = [(bd, c) for bd, c, site in units.calls_in_unit(ctx, p) if c.callee == "ironplcc::project::FileBackedProject::push"]
+    pw = "%s:%d" % (p.f["file"], p.f["line"])
     if len(pushes) == 1:
-        # the push must lie in a loop over `files` with no branch between the iterator's next() Some arm and the push
-        c = pushes[0]
-        nexts = [x for x in p.calls() if (x.callee or "").endswith("Iterator>::next") and x.bb in p.dominators().get(c.bb, set())]
-        ok = False
-        for nx in nexts:
-            # between next()'s Some edge and the push: only straight-line code
-            si = switch_info(p, nx.target) if nx.target is not None else None
-            if si and si["kind"] == "disc":
-                for succ, labs in si["edges"].items():
-                    if labs == ["Some"]:
-                        path_blocks = [bb for bb in p.reachable(succ) if bb in p.dominators().get(c.bb, set()) or bb == c.bb]
-                        cond = [bb for bb in path_blocks if p.term(bb)[0] == "switch" and bb != nx.target]
-                        if not cond:
-                            ok = True
+        bd, c = pushes[0]
+        ok, how = units.visits_every_item(ctx, p, bd, c)
+        if ok and bd is p:
+            # the push must lie in the loop over `files` with no branch between the iterator's next() Some arm and the push
+            ok = False
+            nexts = [x for x in p.calls() if (x.callee or "").endswith("Iterator>::next") and x.bb in p.dominators().get(c.bb, set())]
+            for nx in nexts:
+                si = switch_info(p, nx.target) if nx.target is not None else None
+                if si and si["kind"] == "disc":
+                    for succ, labs in si["edges"].items():
+                        if labs == ["Some"]:
+                            path_blocks = [bb for bb in p.reachable(succ) if bb in p.dominators().get(c.bb, set()) or bb == c.bb]
+                            cond = [bb for bb in path_blocks if p.term(bb)[0] == "switch" and bb != nx.target]
+                            if not cond:
+                                ok = True
         if ok:
-            r.ok("create_project|pushes every enumerated file", "%s:%d" % (p.f["file"], p.f["line"]))
+            r.ok("create_project|pushes every enumerated file", pw, how)
         else:
-            r.finding("create_project|conditional-push", "%s:%d" % (p.f["file"], p.f["line"]), "an enumerated file can be skipped before it is pushed into the project")
+            r.finding("create_project|conditional-push", pw, "an enumerated file can be skipped before it is pushed into the project (%s)" % how)
     else:
-        r.finding("create_project|push-calls=%d" % len(pushes), "%s:%d" % (p.f["file"], p.f["line"]), "expected exactly one FileBackedProject::push in create_project")
+        r.finding("create_project|push-calls=%d" % len(pushes), pw, "expected exactly one FileBackedProject::push in create_project and its closures")
